@@ -195,6 +195,10 @@ class _SvcMixin:
             raise TypeError("unexpected keyword arguments %s" % sorted(kwargs))
         _event("ctor", label=label, cls=type(self).__name__, loop_running=_loop_running())
 
+    def __repr__(self):
+        # like most classes: the representation shows what the constructor has set up
+        return "<%s %s every %s s>" % (type(self).__name__, self.label, self.period)
+
     def _fail(self):
         _event("failing", label=self.label, how=self.fail_how)
         if self.fail_how == "return":
@@ -358,6 +362,19 @@ class VSvcThread(_SvcMixin, PoolDecorator):
             _event("beat", label=self.label, n=n)
             n += 1
             time.sleep(self.period)
+
+
+@service(flavour=threading)
+class VSvcScout(object):
+    """A helper service a configuration uses while it is being built (it probes something and is done): run() ends at once."""
+
+    def __init__(self, label="scout"):
+        self.label = label
+        self.done = threading.Event()
+
+    def run(self):
+        _event("scout", label=self.label)
+        self.done.set()
 
 
 # every recording class is also reachable through a namespace class and an alternative constructor
